@@ -2,6 +2,10 @@
 From Grex Require Import Base.Str Model.Config Model.Cluster Model.Dfa Model.Expr Model.Print
   Model.Pipeline.
 From Grex Require Import Proofs.Lang Proofs.Spec Proofs.PrintShape Proofs.PropsGlue.
+From Grex Require Import Engine.Syntax Engine.Parse Engine.Sem.
+From Grex Require Import Proofs.PrintParseNum Proofs.PrintParseDefs Proofs.PrintParseXTok
+  Proofs.PrintParseXPrint Proofs.PrintParseX Proofs.ScalarHay Proofs.EndToEndVerbose
+  Proofs.PropsGlueE2E.
 
 (* c1 and c2 may differ in f_verbose, f_cap, f_esc, f_sur, f_colour, f_no_start, f_no_end (and
    the self-check outcomes may differ): the two expressions — which need not be equal, the
@@ -48,8 +52,83 @@ Theorem C06_ascii_when_escaped_expr : forall isd c d e,
   f_esc c = true -> expr_from c d = Some e -> Forall (fun x => (x < 128)%N) (regexp_str isd c e).
 Proof. exact regexp_str_from_ascii. Qed.
 
+(* ---------- at the string level (notions: Props/C01.v (f)) ---------- *)
+
+(* verbose mode is presentation only.  unv c is c with f_verbose := false
+   (Proofs/PrintParseXPrint.v); wf_print_gen gap e: e is printable (Proofs/PrintParseDefs.v;
+   gap says whether a class may contain both U+D7FF and U+E000).  The verbose and the
+   non-verbose print of the same expression parse to the SAME AST; only the x flag differs *)
+Theorem C06_verbose_same_ast_expr : forall isd is_ws c gap e,
+  printable c -> f_verbose c = true -> wf_print_gen gap e -> ws_x is_ws ->
+  exists a,
+    parse is_ws (regexp_str isd c e) = Some ({| fl_i := f_ci c; fl_x := true |}, a) /\
+    parse is_ws (regexp_str isd (unv c) e) = Some ({| fl_i := f_ci c; fl_x := false |}, a).
+Proof. exact verbose_same_ast. Qed.
+
+(* ... and so do the two outputs of build for the same inputs (the pipeline does not read
+   f_verbose, the expressions of pipeline outputs are printable) *)
+Theorem C06_verbose_same_ast : forall isd is_ws c db sc ws s,
+  ws <> [] ->
+  Forall (Forall scalar) ws ->
+  (forall s0, In s0 ws -> Forall scalar (lower' db s0)) ->
+  oracle_ok db (normalise c db ws) ->
+  printable c -> f_verbose c = true -> ws_x is_ws ->
+  build isd c db sc ws = Some s ->
+  exists s0 a,
+    build isd (unv c) db sc ws = Some s0
+    /\ parse is_ws s = Some (mkF (f_ci c) true, a)
+    /\ parse is_ws s0 = Some (mkF (f_ci c) false, a).
+Proof. exact build_verbose_same_ast. Qed.
+
+(* capturing groups: every group of the parsed output is capturing iff f_cap c
+   (rast_sub x r: x occurs in r, Proofs/PropsGlueE2E.v) *)
+Theorem C06_capture_groups : forall isd is_ws c db sc ws s,
+  ws <> [] ->
+  Forall (Forall scalar) ws ->
+  (forall s0, In s0 ws -> Forall scalar (lower' db s0)) ->
+  oracle_ok db (normalise c db ws) ->
+  printable c -> (if f_verbose c then ws_x is_ws else ws_ok is_ws) ->
+  build isd c db sc ws = Some s ->
+  exists r, parse is_ws s = Some (mkF (f_ci c) (f_verbose c), r)
+    /\ forall cap r', rast_sub (RGroup cap r') r -> cap = f_cap c.
+Proof.
+  intros isd is_ws c db sc ws s Hne Hsc Hlow Hok Hp Hws H.
+  destruct (build_shape_any isd is_ws c db sc ws s Hne Hsc Hlow Hok Hp Hws H) as (r & Hr & Hg & _).
+  exists r. split; [exact Hr|exact Hg].
+Qed.
+
+(* two printable configurations that differ only in f_verbose, f_cap, f_esc, f_no_start,
+   f_no_end: both outputs parse, with the same i flag, and the parsed patterns match the same
+   haystacks of scalar values (the empty one excepted under K4).  on_scalar lit c x :=
+   lit c x /\ scalar x; the hypothesis on lit holds for lit_cs and lit_ci
+   (ScalarHay.lit_cs_sur, lit_ci_sur) *)
+Theorem C06_string_language : forall (lit cls : cp -> cp -> Prop) isd is_ws c1 c2 db sc1 sc2 ws s1 s2,
+  (f_digit c1 = f_digit c2 /\ f_non_digit c1 = f_non_digit c2 /\
+   f_space c1 = f_space c2 /\ f_non_space c1 = f_non_space c2 /\
+   f_word c1 = f_word c2 /\ f_non_word c1 = f_non_word c2 /\
+   f_ci c1 = f_ci c2) /\
+  f_rep c1 = f_rep c2 /\ min_rep c1 = min_rep c2 /\ min_len c1 = min_len c2 ->
+  ws <> [] ->
+  Forall (Forall scalar) (normalise c1 db ws) ->
+  oracle_ok db (normalise c1 db ws) ->
+  printable c1 -> printable c2 -> ws_x is_ws ->
+  (forall c0 x, surrogate c0 -> ~ on_scalar lit c0 x) ->
+  no_merge (grapheme_clusters c1 db (normalise c1 db ws)) = true ->
+  build isd c1 db sc1 ws = Some s1 ->
+  build isd c2 db sc2 ws = Some s2 ->
+  exists fl1 r1 fl2 r2,
+    parse is_ws s1 = Some (fl1, r1) /\ parse is_ws s2 = Some (fl2, r2)
+    /\ fl_i fl1 = fl_i fl2
+    /\ forall u, Forall scalar u -> (u <> [] \/ K4 (normalise c1 db ws) = false) ->
+         (L_rast lit cls r1 u <-> L_rast lit cls r2 u).
+Proof. exact build_presentation_same_language. Qed.
+
 Print Assumptions C06_language.
 Print Assumptions C06_clusters.
 Print Assumptions C06_verbose_flag.
 Print Assumptions C06_ascii_when_escaped.
 Print Assumptions C06_ascii_when_escaped_expr.
+Print Assumptions C06_verbose_same_ast_expr.
+Print Assumptions C06_verbose_same_ast.
+Print Assumptions C06_capture_groups.
+Print Assumptions C06_string_language.
